@@ -130,4 +130,15 @@ T1 == UNION {Shapes(lf) : lf \in {a}}
 T1all == UNION {Shapes(lf) : lf \in Leaves}
 T2 == UNION {Shapes(t) : t \in T1}
 T3 == UNION {Shapes(t) : t \in T2}
+
+\* Spines: an open-ended construct (conditional, lambda, assignment - each swallows everything to its right) at the END of a
+\* chain of n binary / unary operators hanging on their right operands, the whole chain standing where something follows it:
+\* as the left operand of an operator, before `!`, a call, an index or a field access.  However deep the chain, the
+\* parentheses around it must stay.
+RECURSIVE RSpines(_, _, _)
+RSpines(n, ops, tail) == IF n = 0 THEN {tail}
+                         ELSE UNION {{Bin(o, a, s) : o \in ops} \cup {Un("neg", s)} : s \in RSpines(n - 1, ops, tail)}
+OpenTails == {If(a, b, c), Lam(<<P("x", "req")>>, b), Asg("z", b)}
+Followed(X, fops) == {Bin(o, X, b) : o \in fops} \cup {Fact(X), Call(X, <<a>>), Idx(X, Num(0)), Dot(X, "f")}
+Spines(n, ops, fops) == UNION {Followed(s, fops) : s \in UNION {UNION {RSpines(k, ops, tl) : k \in 1..n} : tl \in OpenTails}}
 =============================================================================
